@@ -14,6 +14,7 @@ pub fn dispatch(f: &[String]) -> String
         "ovl" => op_ovl(f),
         "lc" => op_lc(f),
         "nav" => op_nav(f),
+        "drv" => op_drv(f),
         "ofmt" => op_ofmt(f),
         _ => format!("{{\"unknown_op\":{}}}", json::string(&f[0])),
     }
@@ -454,4 +455,107 @@ fn op_nav(f: &[String]) -> String
         Ok(p) => format!("{{\"ok\":{}}}", json::string(&p)),
         Err(()) => format!("{{\"err\":{}}}", json::string(&first_error(&report))),
     }
+}
+
+
+/// File server for the `drv` op: in-memory files, a log of writes, injected faults.
+pub struct FaultyFileServer
+{
+    names: Vec<String>,
+    contents: Vec<Vec<u8>>,
+    pub writes: Vec<(String, Vec<u8>)>,
+    pub unreadable: Vec<String>,
+    pub unwritable: Vec<String>,
+}
+
+impl FaultyFileServer
+{
+    pub fn new() -> FaultyFileServer
+    {
+        FaultyFileServer { names: Vec::new(), contents: Vec::new(), writes: Vec::new(), unreadable: Vec::new(), unwritable: Vec::new() }
+    }
+
+    pub fn add(&mut self, name: String, content: Vec<u8>)
+    {
+        self.names.push(name);
+        self.contents.push(content);
+    }
+}
+
+impl util::FileServer for FaultyFileServer
+{
+    fn get_handle(&mut self, report: &mut diagn::Report, span: Option<diagn::Span>, filename: &str) -> Result<util::FileServerHandle, ()>
+    {
+        match self.names.iter().position(|n| n == filename)
+        {
+            Some(i) if !self.unreadable.iter().any(|n| n == filename) => Ok(i),
+            _ =>
+            {
+                let descr = format!("file not found: `{}`", filename);
+                match span { Some(s) => report.error_span(descr, s), None => report.error(descr) };
+                Err(())
+            }
+        }
+    }
+
+    fn get_filename(&self, file_handle: util::FileServerHandle) -> &str
+    {
+        &self.names[file_handle]
+    }
+
+    fn get_bytes(&self, _report: &mut diagn::Report, _span: Option<diagn::Span>, file_handle: util::FileServerHandle) -> Result<Vec<u8>, ()>
+    {
+        Ok(self.contents[file_handle].clone())
+    }
+
+    fn write_bytes(&mut self, report: &mut diagn::Report, span: Option<diagn::Span>, filename: &str, data: &Vec<u8>) -> Result<(), ()>
+    {
+        if self.unwritable.iter().any(|n| n == filename)
+        {
+            let descr = format!("could not write file: `{}`", filename);
+            match span { Some(s) => report.error_span(descr, s), None => report.error(descr) };
+            return Err(());
+        }
+        self.writes.push((filename.to_string(), data.clone()));
+        Ok(())
+    }
+}
+
+
+/// drv <nfiles> (<name_hex> <content_hex>)* <faults r:namehex,w:namehex,..|-> <argv_hex>*
+/// driver::drive with argv[0] = "customasm"
+fn op_drv(f: &[String]) -> String
+{
+    let nfiles: usize = f[1].parse().unwrap();
+    let mut fs = FaultyFileServer::new();
+    for i in 0..nfiles
+    {
+        fs.add(json::unhex_str(&f[2 + 2 * i]), json::unhex(&f[3 + 2 * i]));
+    }
+    let faults = &f[2 + 2 * nfiles];
+    if faults != "-"
+    {
+        for ft in faults.split(',')
+        {
+            let name = json::unhex_str(&ft[2..]);
+            if ft.starts_with("r:") { fs.unreadable.push(name); } else { fs.unwritable.push(name); }
+        }
+    }
+    let mut argv = vec!["customasm".to_string()];
+    for a in &f[(3 + 2 * nfiles)..]
+    {
+        argv.push(json::unhex_str(a));
+    }
+    let mut report = diagn::Report::new();
+    let result = crate::driver::drive(&mut report, &argv, &mut fs);
+    let msgs: Vec<String> = report.verif_messages().iter().map(|m| message_json(m, &fs)).collect();
+    let nerrors = report.verif_messages().iter().filter(|m| m.kind == diagn::MessageKind::Error).count();
+    let writes: Vec<String> = fs.writes.iter().map(|(n, d)| format!("{{\"name\":{},\"data\":\"{}\"}}", json::string(n), json::hex(d))).collect();
+    let (ok, has_output, iters) = match &result
+    {
+        Ok(r) => (true, r.output.is_some(), r.iterations_taken),
+        Err(()) => (false, false, None),
+    };
+    format!("{{\"ok\":{},\"has_output\":{},\"iters\":{},\"nerrors\":{},\"messages\":[{}],\"writes\":[{}]}}",
+        ok, has_output, match iters { Some(i) => i.to_string(), None => "null".to_string() }, nerrors, msgs.join(","), writes.join(","))
 }
